@@ -11,6 +11,7 @@ from allmydata.storage.crawler import (
 from allmydata.storage.shares import get_share_file
 from allmydata.storage.common import UnknownMutableContainerVersionError, \
      UnknownImmutableContainerVersionError
+from allmydata.util import fileutil
 from twisted.python import log as twlog
 from twisted.python.filepath import FilePath
 
@@ -41,7 +42,7 @@ class _HistorySerializer:
         self._path = _confirm_json_format(FilePath(history_path))
 
         if not self._path.exists():
-            _dump_json_to_file({}, self._path)
+            self.save({})
 
     def load(self):
         """
@@ -57,7 +58,12 @@ class _HistorySerializer:
         """
         Serialize the existing data as JSON.
         """
-        _dump_json_to_file(new_history, self._path)
+        # write a temporary file and rename it into place (as the crawler
+        # state is saved), so that a crash during the write cannot leave a
+        # truncated history that load() would fail on after every restart
+        tmpfile = self._path.siblingExtension(".tmp")
+        _dump_json_to_file(new_history, tmpfile)
+        fileutil.move_into_place(tmpfile.path, self._path.path)
         return None
 
 
